@@ -430,6 +430,8 @@ func (d *director) step(st Step) bool {
 			d.note(&d.rec.Progress, "blocked client: c%d did not receive e%d within %v while %v stalled", st.C, st.E, d.wd, stalled)
 			return false
 		}
+	case "hold":
+		time.Sleep(time.Duration(st.N) * time.Millisecond)
 	case "awaitunreg":
 		c := cl()
 		if !d.wait(func() bool { return c.unreg }, d.wd) {
